@@ -36,6 +36,8 @@ class Env:
         for name, mi in self.program.modules.items():
             if name.startswith('spec') or name.startswith('clauses'):
                 for fn in mi.funcs:
+                    if fn in self.clause_native:
+                        raise RuntimeError('contract function %s is defined in two contract files' % fn)
                     self.clause_native[fn] = getattr(mi.native, fn)
 
     def native_callable(self, qualname):
